@@ -28,8 +28,14 @@ struct MzCall { void* ptr; size_t len; };
 enum KdfMode { KDF_FIXED, KDF_MIX, KDF_NOTOUCH };
 
 // libc interposition counters (only meaningful in binaries linked with -Wl,--wrap=malloc,--wrap=free,--wrap=time; see props/c18)
-struct Wrap { bool enabled = false; bool window = false; int in_stub = 0; uint64_t malloc_calls = 0, free_calls = 0, time_calls = 0; bool fake = false; uint64_t fake_time = 0; };   // fake: the interposed libc time() answers fake_time inside an API window
+struct Wrap { bool enabled = false; bool window = false; int in_stub = 0; uint64_t malloc_calls = 0, free_calls = 0, time_calls = 0; bool fake = false; uint64_t fake_time = 0;
+    // the process environment as an input: while `api` is set (an API call is being exercised) getenv/secure_getenv, the libc random generators, the other libc clocks and
+    // fopen are counted, and getenv answers env_fake (if set) for every name - a library that consults the environment then behaves differently from the model
+    bool api = false; uint64_t foreign_calls = 0; char foreign_what[96] = {0}; const char* env_fake = nullptr;
+    void note(const char* fn, const char* arg) { if (!foreign_calls++) snprintf(foreign_what, sizeof foreign_what, "%s(%s%s%s)", fn, arg ? "\"" : "", arg ? arg : "", arg ? "\"" : ""); }
+    bool watching() const { return enabled && (window || api) && !in_stub; } };   // fake: the interposed libc time() answers fake_time inside an API window
 inline Wrap& wrap() { static Wrap w; return w; }
+inline const char* env_value(uint64_t pick) { static const char* ENV[] = {nullptr, "7", "4102444800", "1", "0", "5", "yes", "2"}; return ENV[pick % 8]; }
 struct StubScope { bool on; StubScope() : on(wrap().enabled) { if (on) wrap().in_stub++; } ~StubScope() { if (on) wrap().in_stub--; } };   // no shared writes unless interposition is in use (C20 runs many threads)
 enum MzMode { MZ_WIPE, MZ_MARK, MZ_NOOP };
 
